@@ -182,6 +182,15 @@ def sweep_scenarios(tier, rnd):
                     sc["_hdr"] = (ctx, compression, b1, b2)
                     sc["_viol"] = spec_header_violation(ctx, compression, b1, b2)
                     scs.append(sc)
+    # process history: the connection with permessage-deflate negotiated runs immediately before the one without it that
+    # receives the same header (the worker processes run consecutive scenarios in one Python process), so that anything
+    # a parser leaves behind for later connections -- caches, class attributes -- meets the case where it matters
+    scs.sort(key=lambda sc: (sc["_hdr"][0], sc["_hdr"][2], sc["_hdr"][3], not sc["_hdr"][1]))
+    prev = None
+    for sc in scs:
+        if prev is not None and prev["_hdr"][1] and not sc["_hdr"][1] and prev["_hdr"][0] == sc["_hdr"][0] and prev["_hdr"][2:] == sc["_hdr"][2:]:
+            sc["prelude"] = dict(steps=prev["steps"], ztape=prev["ztape"])
+        prev = sc
     return scs
 
 
@@ -216,7 +225,7 @@ def run(rep, info, model, tier, seed):
     for sc in sw:
         rep.count("sweep.violation", sc["_viol"])
     fam.run_family(rep, model, "C04:two-byte-header-sweep", sw, sweep_oracle, project=fam.no_waits,
-                   rule=("all" if tier == "thorough" else "a stratified subset of the") + " 65536 two-byte frame headers x contexts {idle, inside text, inside binary} x compression {off,on}, each completed with the shortest continuation and a zero-filled payload; classified by an RFC 6455 predicate written in the harness")
+                   rule=("all" if tier == "thorough" else "a stratified subset of the") + " 65536 two-byte frame headers x contexts {idle, inside text, inside binary} x compression {off,on}, each completed with the shortest continuation and a zero-filled payload; classified by an RFC 6455 predicate written in the harness; the compression=on connection for a header runs in the same process immediately before the compression=off one (state left behind by earlier connections)")
     rep.exhaustive["65536 headers x 3 contexts x 2 compression modes"] = (tier == "thorough")
     if not proof_ok and not rep.violations:
         rep.broken("proof obligation props/C04.v no longer checks: %s" % (rep.coq_failure,))
@@ -224,6 +233,11 @@ def run(rep, info, model, tier, seed):
 
 def replay(body):
     sc = fam.unjson_sc(body["scenario"])
+    if sc.get("prelude"):
+        # the connection that ran just before this one in the same process (permessage-deflate negotiated)
+        pre = dict(sc, steps=[tuple(x) for x in sc["prelude"]["steps"]], ztape=sc["prelude"]["ztape"])
+        pre.pop("prelude")
+        simnet.run_impl(pre)
     r = simnet.run_impl(sc)
     tr = simnet.canon_trace(r.trace)
     print("events:", [it[1][:1] for it in tr if it[0] == 0])
